@@ -477,7 +477,17 @@ pub fn run_random(rec: &mut Rec, seed: u64, run: u64, nops: usize) {
                         let dep = Atom::Deposit { x: Uint128::new(match r.gen_range(0..3) { 0 => outer_rep.max(1001), 1 => gen::amount(&mut r, amt.max(2000)), _ => outer_rep.saturating_add(gen::amount(&mut r, 5000)).max(1001) }) };
                         let lpa2 = A::Cw20(p.lp.clone());
                         let adv_sh = p.w.balance(&p.adv, &lpa2);
-                        match r.gen_range(0..8) {
+                        // sibling loans: two loans taken one after the other in the same call-back, each repaid exactly; the
+                        // outer repayment is exact, or short by the fees the first (or the second) sibling left in the vault
+                        let amt3 = loan_amount(&mut r, bal.saturating_sub(amt)).max(1);
+                        let exact = |p: &VaultRun, x: u128| -> Vec<Atom> { match p.payback(x) { Some(q) => vec![Atom::Repay { x: q.payback_amount }], None => vec![Atom::Nothing {}] } };
+                        let kept = |p: &VaultRun, x: u128| -> u128 { p.payback(x).map(|q| q.protocol_fee.u128() + q.flash_loan_fee.u128()).unwrap_or(0) };
+                        let full = p.payback(amt).map(|q| q.payback_amount.u128()).unwrap_or(amt);
+                        let sib_rep = Atom::Repay { x: Uint128::new(match r.gen_range(0..5) { 0 | 1 => full, 2 => full.saturating_sub(kept(&p, amt2)), 3 => full.saturating_sub(kept(&p, amt3)), _ => full.saturating_sub(1) }.max(1)) };
+                        match r.gen_range(0..10) {
+                            8 => vec![Atom::Loan { x: Uint128::new(amt2), sub: exact(&p, amt2) }, Atom::Loan { x: Uint128::new(amt3), sub: exact(&p, amt3) }, sib_rep],
+                            // ... and a chain three deep
+                            9 => vec![Atom::Loan { x: Uint128::new(amt2), sub: vec![Atom::Loan { x: Uint128::new(amt3), sub: exact(&p, amt3) }, Atom::Repay { x: Uint128::new(p.payback(amt2).map(|q| q.payback_amount.u128()).unwrap_or(amt2)) }] }, sib_rep],
                             0 => vec![Atom::Loan { x: Uint128::new(amt2), sub: inner }, dep],
                             1 => vec![Atom::Loan { x: Uint128::new(amt2), sub: inner }, dep, rep],
                             2 => vec![Atom::Loan { x: Uint128::new(amt2), sub: inner }, Atom::Withdraw { x: Uint128::new(gen::amount(&mut r, adv_sh.max(1))) }, rep],
